@@ -1,6 +1,7 @@
 import SnaxVerif.Lemmas.CyclicLayout
 import SnaxVerif.Lemmas.CyclicLayoutDeep
 import SnaxVerif.Lemmas.CyclicLayoutTsl
+import SnaxVerif.Lemmas.CyclicLayoutGlobal
 /-!
 # C09 — chosen memory layouts are one-to-one on the operand
 
@@ -350,7 +351,64 @@ theorem explicit_untouched_maps (fixed tiled : Bool) (spatial : Option Nat) (bou
   unfold rewriteOpMaps
   rw [if_pos (List.any_eq_true.mpr h)]
 
+/-! ## the neighbouring pattern: the layout of a whole global derived from the layout of its tile
+
+`ApplyLayoutCastSubviewGlobal` (realize-memref-casts, the pass right after set-memory-layout), model
+`Model/CyclicLayoutGlobal.lean`. -/
+
+/-- `global_start_stride`: the start stride of the outer tiles, `max(bound * step)` taken over the
+CANONICAL tile layout, lies beyond every address of the tile — access-granularity padding and dropped
+unit strides included — for every layout `set-memory-layout` can choose. -/
+theorem global_start_stride (c : Cfg) (L : Layout) (hpos : ∀ n ∈ c.shape, 0 < n)
+    (h : cyclicLayout true c = .ok L) (m : Nat) (hm : maxProd L = some m) :
+    ∀ idx, InShape c.shape idx → addr L idx < m := by
+  have hF := cyclicLayout_tileFacts hpos h
+  intro idx hidx
+  exact hF.top m hm idx (inbox_of_inshape hF.cov hidx)
+
+/-- The full statement: the layout given to the whole global covers exactly the global's shape and is
+one-to-one on it. FALSE for the code as it is (`global_layout_fails`, finding DC09a). -/
+def global_layout_statement : Prop :=
+  ∀ (c : Cfg) (L : Layout) (g : List Nat) (G : Layout), (∀ n ∈ c.shape, 0 < n) →
+    cyclicLayout true c = .ok L → globalLayout L g = .ok (some G) → Covers G g ∧ InjectiveOn G g
+
+/-- clause `tileDivides`: in every dimension the extent of the tile (the subview that is the operand)
+divides the extent of the global. Under it the statement holds for every schedule, shape, width,
+template, mode, and every global. -/
+theorem global_layout_partial (c : Cfg) (L : Layout) (g : List Nat) (G : Layout)
+    (hpos : ∀ n ∈ c.shape, 0 < n) (h : cyclicLayout true c = .ok L)
+    (hg : globalLayout L g = .ok (some G))
+    (tileDivides : ∀ (d t n : Nat), c.shape[d]? = some t → g[d]? = some n → t ∣ n) :
+    Covers G g ∧ InjectiveOn G g :=
+  globalLayout_spec (cyclicLayout_tileFacts hpos h) hg tileDivides
+
+/-- the witness of DC09a: an `8x5xi8` tile (gemm operand A, bounds `[8, 8, 5]`, snax_gemmx) of a
+`20x10` global -/
+def dc09aCfg : Cfg :=
+  ⟨true, some 3, some 8, [8, 5], [[1, 0, 0], [0, 0, 1]], [8, 8, 5]⟩
+
+theorem dc09a_layouts :
+    cyclicLayout true dc09aCfg = .ok [[⟨8, 8⟩], [⟨1, 5⟩]] ∧
+    globalLayout [[⟨8, 8⟩], [⟨1, 5⟩]] [20, 10] = .ok (some [[⟨64, 2⟩, ⟨8, 8⟩], [⟨128, 2⟩, ⟨1, 5⟩]]) ∧
+    addr [[⟨64, 2⟩, ⟨8, 8⟩], [⟨128, 2⟩, ⟨1, 5⟩]] [16, 0] = 128 ∧
+    addr [[⟨64, 2⟩, ⟨8, 8⟩], [⟨128, 2⟩, ⟨1, 5⟩]] [0, 5] = 128 := by decide +kernel
+
+/-- `global_layout_fails`: `remaining_size = shape // tile` is a floor division: the `20x10` global gets
+`[2, 8] -> (64, 8), [2, 5] -> (128, 1)`, rows 16..19 are not covered and element (16,0) lives at the
+address of (0,5). -/
+theorem global_layout_fails : ¬ global_layout_statement := by
+  intro h
+  have hc := (h dc09aCfg _ [20, 10] _ (by decide) dc09a_layouts.1 dc09a_layouts.2.1).1
+  have := hc.2 0 _ 20 rfl rfl
+  revert this; decide
+
 /-! ## non-vacuity of the deepening theorems -/
+
+/-- `global_layout_partial` applies to the padded tile of the round-5 seed: `32x5xi8` global, `8x5` tile,
+result `[4, 8] -> (64, 8), [5] -> (1)` (the outer stride 64 = max(bound*step), not 40 = #elements) -/
+example : globalLayout [[⟨8, 8⟩], [⟨1, 5⟩]] [32, 5] = .ok (some [[⟨64, 4⟩, ⟨8, 8⟩], [⟨1, 5⟩]]) ∧
+    maxProd [[⟨8, 8⟩], [⟨1, 5⟩]] = some 64 := by decide +kernel
+
 
 example : WellFormed (some 3) [2, 2, 2, 8, 8, 8]
     [{ shape := [16, 16], elBits := some 8, hasTsl := false, ndims := 6,
